@@ -193,7 +193,7 @@ class Runner:
         self.undecided = []
         self.log = []
         self.refute_budget_s = 150 if tier == 'quick' else 900
-        self.discharge_budget_s = 420 if tier == 'quick' else 3600
+        self.discharge_budget_s = 900 if tier == 'quick' else 3600
         self.generate_budget_s = 300 if tier == 'quick' else 1800
 
     def new_interp(self):
